@@ -26,6 +26,7 @@ type Profile struct {
 }
 
 type Gen struct {
+	held      []int // built but not yet submitted transactions (may have become stale)
 	e         *Exec
 	r         *xvlib.Rng
 	out       *xvlib.Out
@@ -93,6 +94,9 @@ func (g *Gen) pick(w map[string]int) string {
 
 func (g *Gen) users() []string { return []string{"u0", "u1", "u2"} }
 
+// spenders: users and block producers (fee and award outputs get spent too)
+func (g *Gen) spenders() []string { return []string{"u0", "u1", "u2", "m0", "m1"} }
+
 // spendable outputs of addr in spec s at ledger height h (sorted)
 func spendable(s *Spec, addr string, h int64, includeFrozen bool) []string {
 	var ks []string
@@ -122,6 +126,10 @@ func (g *Gen) genXfer(s *Spec, h int64, variant string) (string, bool) {
 	w := g.e.w
 	us := g.users()
 	from := us[g.r.Intn(len(us))]
+	if g.r.Chance(1, 4) {
+		sps := g.spenders()
+		from = sps[g.r.Intn(len(sps))]
+	}
 	sp := spendable(s, from, h, false)
 	if variant == "frozen" {
 		all := spendable(s, from, h, true)
@@ -291,6 +299,7 @@ func (g *Gen) scenario(p *Profile) {
 		f = 1
 	}
 	g.canon = nil
+	g.held = nil
 	g.emit(fmt.Sprintf("reset fee=%d w=%d alloc=1000,500,300", f, win))
 	g.confirmed = map[int]bool{0: true}
 	w := e.w
@@ -307,6 +316,56 @@ func (g *Gen) scenario(p *Profile) {
 			if line, ok := g.genXfer(e.specNow(), g.ledgerHeight(), vs[g.r.Intn(len(vs))]); ok {
 				g.emit(line)
 				g.emit(fmt.Sprintf("dotx %d", len(w.Txs)-1))
+			}
+		case "xfer-hold":
+			// build a valid transaction now, submit it later (it may be stale by then)
+			if line, ok := g.genXfer(e.specNow(), g.ledgerHeight(), ""); ok {
+				g.emit(line)
+				g.held = append(g.held, len(w.Txs)-1)
+			}
+		case "submit-held":
+			if len(g.held) > 0 {
+				k := g.r.Intn(len(g.held))
+				ti := g.held[k]
+				g.held = append(g.held[:k], g.held[k+1:]...)
+				g.emit(fmt.Sprintf("dotx %d", ti))
+			}
+		case "mine-auto":
+			// own block carrying a generated (autogen) transaction after the award; PlayForMiner applies it unverified
+			st := e.stateTip()
+			if st != e.ledgerTip() {
+				g.syncState()
+				break
+			}
+			key := w.Keys[g.r.Intn(len(w.Keys))]
+			cur := e.specNow()
+			ver := "-"
+			if kv, ok := cur.KV[key]; ok {
+				ver = fmt.Sprintf("%d.%d", kv.Tx, kv.Off)
+			}
+			if g.r.Chance(1, 2) {
+				ver = "0.7" // a version that never existed: the generated transaction is stale
+			}
+			ai := len(w.Txs)
+			g.emit(fmt.Sprintf("atx %d kin=%s@%s kout=%s=auto%d", ai, key, ver, key, ai))
+			txs, err := w.Main.S.GetUnconfirmedTx(false)
+			if err != nil {
+				break
+			}
+			ids := []string{fmt.Sprint(ai)}
+			for _, t := range txs {
+				ids = append(ids, fmt.Sprint(w.TxByID[string(t.Txid)]))
+			}
+			bi := len(w.Blocks)
+			g.emit(fmt.Sprintf("blk %d pre=%d prop=m0 aa=%d aw=%d txs=%s", bi, st, w.Award, len(w.Txs), strings.Join(ids, ",")))
+			if g.emit(fmt.Sprintf("confirm %d", bi)) != "fail" {
+				g.confirmed[bi] = true
+				e.badBlocks[bi] = true // replicas refuse a fabricated generated transaction
+				if g.emit(fmt.Sprintf("playminer %d", bi)) != "ok" {
+					// the producer drops its own block again (as the miner does on failure: truncate back)
+					g.emit(fmt.Sprintf("truncate %d", st))
+					delete(g.confirmed, bi)
+				}
 			}
 		case "resubmit":
 			// submit an older transaction again (stale, already confirmed, or still pending)
@@ -500,6 +559,31 @@ func (g *Gen) foreignBlock(fork bool) {
 			}
 		}
 	}
+	// transactions that are already on the main chain above the fork point, if they still apply on this base:
+	// the same transaction on two branches (exercises the tx -> block re-mapping of a trunk switch)
+	if fork && g.r.Chance(1, 2) {
+		lt := e.ledgerTip()
+		if lt >= 0 && !w.isAncestorOrSelf(lt, base) {
+			onBase := map[int]bool{}
+			for _, b := range w.chain(base) {
+				for _, ti := range w.Blocks[b].Txs {
+					onBase[ti] = true
+				}
+			}
+			for _, b := range w.chain(lt) {
+				if w.isAncestorOrSelf(b, base) {
+					continue
+				}
+				for _, ti := range w.Blocks[b].Txs[1:] {
+					if !onBase[ti] && len(ids) < 3 && g.r.Chance(2, 3) && !w.Txs[ti].Coinbase && s.admissible(w.Txs[ti], h) == "" {
+						s.apply(w.Txs[ti])
+						ids = append(ids, fmt.Sprint(ti))
+						onBase[ti] = true
+					}
+				}
+			}
+		}
+	}
 	nx := g.r.Intn(3)
 	for i := 0; i < nx; i++ {
 		if line, ok := g.genXfer(s, h, ""); ok {
@@ -539,7 +623,41 @@ func (g *Gen) badBlock() {
 	if base < 0 {
 		return
 	}
-	switch g.r.Intn(4) {
+	switch g.r.Intn(5) {
+	case 4: // two transactions superseding the same key version inside one block (delete + write, or write + write)
+		k := w.Keys[g.r.Intn(len(w.Keys))]
+		cur := w.SpecAt(base)
+		p1, p2 := "del_"+k, fmt.Sprintf("put_%s_x%d", k, g.r.Intn(100))
+		if _, ok := cur.KV[k]; !ok || g.r.Chance(1, 2) {
+			p1 = fmt.Sprintf("put_%s_y%d", k, g.r.Intn(100))
+		}
+		if g.r.Chance(1, 2) {
+			p1, p2 = p2, p1
+		}
+		mk := func(prog string) int {
+			from := g.users()[g.r.Intn(3)]
+			r, err := e.preexec(from, fmt.Sprintf("b%d", base), prog)
+			if err != nil {
+				return -1
+			}
+			t := &TxInfo{Idx: len(w.Txs), From: from, Prog: prog}
+			if e.absorbRW(t, r) != nil {
+				return -1
+			}
+			g.emit(t.line("ktx", fmt.Sprintf("at=b%d prog=%s", base, prog)))
+			return t.Idx
+		}
+		a, b := mk(p1), mk(p2)
+		if a < 0 || b < 0 {
+			return
+		}
+		bi := len(w.Blocks)
+		e.badBlocks[bi] = true
+		g.emit(fmt.Sprintf("blk %d pre=%d prop=m1 aa=%d aw=%d txs=%d,%d", bi, base, w.Award, len(w.Txs), a, b))
+		if g.emit(fmt.Sprintf("confirm %d", bi)) != "fail" {
+			g.confirmed[bi] = true
+			g.syncState()
+		}
 	case 0: // unknown parent: build on a block that is never confirmed
 		bi := len(w.Blocks)
 		g.emit(fmt.Sprintf("blk %d pre=%d prop=m1 aa=%d aw=%d txs=", bi, base, w.Award, len(w.Txs)))
